@@ -303,10 +303,30 @@ def r55(e: Engine, rep: Report):
                     isinstance(n.value.args[0].value, bytes) and \
                     isinstance(n.targets[0], ast.Name):
                 finds[n.targets[0].id] = n.value.args[0].value
+        # ... where the search is resumed: the start argument of the next
+        # find (directly, or through the cursor it is assigned to).  Other
+        # uses of the position (`index + 1` = where the dot is) are not
+        # judged: they are arithmetic, not agreement with the reader.
+        starts = set()
+        cursors = set()
+        for n in walk_own(m.node):
+            if isinstance(n, ast.Call) and isinstance(n.func, ast.Attribute) \
+                    and n.func.attr in ('find', 'index') and \
+                    len(n.args) >= 2:
+                for y in ast.walk(n.args[1]):
+                    starts.add(id(y))
+                if isinstance(n.args[1], ast.Name):
+                    cursors.add(n.args[1].id)
+        for n in walk_own(m.node):
+            if isinstance(n, ast.Assign) and \
+                    isinstance(n.targets[0], ast.Name) and \
+                    n.targets[0].id in cursors:
+                for y in ast.walk(n.value):
+                    starts.add(id(y))
         for n in walk_own(m.node):
             if isinstance(n, ast.BinOp) and isinstance(n.op, ast.Add) and \
                     isinstance(n.left, ast.Name) and n.left.id in finds and \
-                    isinstance(n.right, ast.Constant):
+                    isinstance(n.right, ast.Constant) and id(n) in starts:
                 rep.evaluations += 1
                 lit = finds[n.left.id]
                 rep.check(n.right.value == len(lit), 'R5.5', m.qname,
@@ -674,13 +694,29 @@ def r510(e: Engine, rep: Report):
         rep.error('anchor vanished: raw_recv / add_lines in DataReader.recv')
         return
 
+    rc = common.merged_class(e, READER)
+    eod_props = set()
+    for st0 in rc.node.body:
+        if isinstance(st0, ast.FunctionDef) and any(
+                isinstance(d, ast.Name) and d.id == 'property'
+                for d in st0.decorator_list) and any(
+                isinstance(y, ast.Attribute) and y.attr == 'EOD'
+                for y in ast.walk(st0)):
+            eod_props.add(st0.name)
+
+    def asks_eod(t):
+        # the sentinel itself, or a property of the reader that reads it
+        return any(isinstance(y, ast.Attribute) and
+                   (y.attr == 'EOD' or y.attr in eod_props)
+                   for y in ast.walk(t))
+
     def step(x, label, st):
         if x in reads:
             return 'read'
         if x in scans and st == 'read':
             return 'scanned'
         if x.kind == 'test' and st == 'scanned' and label in ('T', 'F') and \
-                'EOD' in ast.unparse(x.ast):
+                asks_eod(x.ast):
             return 'clear'
         return st
     for r in reads:
